@@ -12,6 +12,7 @@ import (
 	"strconv"
 	"strings"
 	"sync"
+	"testing"
 	"time"
 
 	"github.com/valyala/fasthttp/internal/verif/mcrt"
@@ -26,6 +27,30 @@ type Scenario struct {
 	// Check is the oracle for one finished execution. It returns an outcome class (anti-vacuity: distinct classes
 	// are counted) and, for a violation, a non-empty sig + description.
 	Check func(x *mcrt.Exec) (class, sig, what string)
+	// RaceOnly: the scenario is re-used by the data-race check; its own oracle only labels outcomes, and only the race
+	// detector's reports count as violations.
+	RaceOnly bool
+}
+
+// collected is non-nil while Collect gathers the scenario lists of other checks instead of running them.
+var collected *[]Scenario
+
+// Collect calls the given check functions in a mode where vrt records nothing and Run only hands over its scenario
+// list; it returns all scenarios, renamed "<prefix>/<name>".
+func Collect(t *testing.T, prefixes []string, fns ...func(*testing.T)) []Scenario {
+	var all []Scenario
+	vrt.Dry = true
+	defer func() { vrt.Dry = false; collected = nil }()
+	for i, fn := range fns {
+		var got []Scenario
+		collected = &got
+		fn(t)
+		for _, sc := range got {
+			sc.Name = prefixes[i] + "/" + sc.Name
+			all = append(all, sc)
+		}
+	}
+	return all
 }
 
 type artefact struct {
@@ -63,6 +88,10 @@ func firstLines(s string, n int) string {
 
 // Run explores all scenarios (or replays one artefact) and records coverage and violations in r.
 func Run(r *vrt.R, scs []Scenario) {
+	if collected != nil {
+		*collected = append(*collected, scs...)
+		return
+	}
 	byName := map[string]*Scenario{}
 	for i := range scs {
 		if byName[scs[i].Name] != nil {
@@ -175,7 +204,13 @@ func judge(r *vrt.R, sc *Scenario, x *mcrt.Exec, cfg *mcrt.Config) string {
 	if sc.Check != nil {
 		cls, sig, what = sc.Check(x)
 	}
-	if sig == "" {
+	if sc.RaceOnly {
+		sig, what = "", ""
+		if gs, _ := generic(x); gs != "" && cls == "" {
+			cls = gs
+		}
+	}
+	if sig == "" && !sc.RaceOnly {
 		if gs, gw := generic(x); gs != "" {
 			sig, what = gs, gw
 			if cls == "" {
